@@ -226,8 +226,9 @@ def execute_with_forge(ctx, runs):
 def oracle(ctx, deep):
     runs = sc.plan(ctx, walks_quick=4, walks_thorough=40, walk_len=30)
     if not deep:
-        keep = ('handshake', 'rekey_child', 'rekey_ike', 'delete_child', 'dpd', 'new_child', 'lost_everything')
-        runs = [r for r in runs if r[0].split('/')[0] in keep or r[0].startswith('walk')][:14]
+        keep = ('handshake', 'rekey_child', 'rekey_ike', 'delete_child', 'dpd', 'new_child', 'lost_everything',
+                'acquire_queued_at_responder')
+        runs = [r for r in runs if r[0].split('/')[0] in keep or r[0].startswith('walk')][:22]
     return run_oracle(ctx, runs, every=1 if deep else 2)
 
 
